@@ -294,8 +294,99 @@ fn alphabet(_t: Tier) -> Box<dyn Iterator<Item = Case>> {
     Box::new(v.into_iter())
 }
 
+// --- the deltas the map encoder emits -----------------------------------------------------------
+
+/// Two tokens whose generated column / original line / original column go from `a` to `b`
+/// (`field` 0..3); everything else stays put. "…this holds for every difference of two 32-bit
+/// unsigned numbers, which is all the map encoder ever emits": the map's own serialisation is read
+/// back with the reference reader.
+#[derive(Clone, Debug, Hash, Serialize, Deserialize)]
+pub struct DeltaCase {
+    pub field: u8,
+    pub a: u32,
+    pub b: u32,
+}
+
+fn check_delta(c: &DeltaCase, obs: &mut Obs) -> Verdict {
+    use sourcemap::{RawToken, SourceMap};
+    let tok = |dc: u32, sl: u32, sc: u32| RawToken { dst_line: 0, dst_col: dc, src_line: sl, src_col: sc, src_id: 0, name_id: !0, is_range: false };
+    let (t1, t2) = match c.field % 3 {
+        // the generated column can only grow along a line
+        0 => (tok(c.a.min(c.b), 1, 1), tok(c.a.max(c.b), 1, 1)),
+        1 => (tok(0, c.a, 7), tok(1, c.b, 7)),
+        _ => (tok(0, 7, c.a), tok(1, 7, c.b)),
+    };
+    let sm = SourceMap::new(None, vec![t1, t2], vec![], vec!["s.js".into()], None);
+    let mut out = vec![];
+    match crate::engine::guard(|| sm.to_writer(&mut out)) {
+        Ok(Ok(())) => {}
+        other => return Verdict::Fail(format!("to_writer: {other:?}")),
+    }
+    let v: serde_json::Value = match serde_json::from_slice(&out) {
+        Ok(v) => v,
+        Err(e) => return Verdict::Fail(format!("serialised map is not JSON: {e}")),
+    };
+    let Some(mappings) = v["mappings"].as_str() else { return Verdict::Fail("no mappings string".into()) };
+    let dec = match crate::refimpl::v3::decode_mappings(mappings, 1, 0) {
+        Ok(d) => d,
+        Err(e) => return Verdict::Fail(format!("the reference reader rejects the emitted mappings {mappings:?}: {e:?}")),
+    };
+    let got: Vec<(u32, u32, u32, u32)> = dec.tokens.iter().map(|t| (t.dl, t.dc, t.src.as_ref().map(|s| s.line).unwrap_or(!0), t.src.as_ref().map(|s| s.col).unwrap_or(!0))).collect();
+    let mut want = vec![(0, t1.dst_col, t1.src_line, t1.src_col), (0, t2.dst_col, t2.src_line, t2.src_col)];
+    want.dedup();
+    if dec.out_of_u32 || got != want {
+        return Verdict::Fail(format!(
+            "map encoder: tokens {want:?} (field {} goes from {} to {}, difference {}) are written as {mappings:?}, which reads back as {got:?}",
+            c.field % 3,
+            c.a,
+            c.b,
+            i64::from(c.b) - i64::from(c.a)
+        ));
+    }
+    let d = (i64::from(c.b) - i64::from(c.a)).unsigned_abs();
+    obs.class_if(d >= 1 << 31, "map-encoder-delta>=2^31");
+    obs.class_if(d >= 1 << 16, "map-encoder-delta>=2^16");
+    obs.class_if(c.b < c.a && c.field % 3 != 0, "map-encoder-negative-delta");
+    if d >= 32 {
+        obs.nontrivial();
+    }
+    Verdict::Pass
+}
+
+fn delta_edges(_t: Tier) -> Box<dyn Iterator<Item = DeltaCase>> {
+    let mut vals: Vec<u32> = vec![0, 1, 2, 15, 16, 17, 31, 32, 33];
+    for k in 5..=32u32 {
+        let p = 1u64 << k;
+        for x in [p - 1, p, p + 1] {
+            if x <= u64::from(u32::MAX) {
+                vals.push(x as u32);
+            }
+        }
+    }
+    vals.push(u32::MAX - 1);
+    vals.sort();
+    vals.dedup();
+    let mut out = vec![];
+    for field in 0..3u8 {
+        for &a in &vals {
+            for &b in &vals {
+                out.push(DeltaCase { field, a, b });
+            }
+        }
+    }
+    Box::new(out.into_iter())
+}
+
+fn delta_random(_t: Tier) -> BoxedStrategy<DeltaCase> {
+    (0u8..3, crate::model::small_or_edge(), crate::model::small_or_edge(), any::<u32>(), any::<u32>(), any::<bool>())
+        .prop_map(|(field, a, b, ra, rb, wide)| if wide { DeltaCase { field, a: ra, b: rb } } else { DeltaCase { field, a, b } })
+        .boxed()
+}
+
 fn subs() -> Vec<Sub> {
     vec![
+        enum_sub("map_encoder_deltas", delta_edges, check_delta),
+        gen_sub("map_encoder_deltas_random", delta_random, |t| t.pick(60_000, 1_000_000), check_delta),
         custom_sub::<Case>("window", run_window, check),
         enum_sub("powers", powers, check),
         gen_sub("lists", lists, |t| t.pick(200_000, 2_000_000), check),
